@@ -523,10 +523,10 @@ pub fn worker_c05(ctx: &WorkerCtx) -> WorkerResult {
 /// C09 parts (ii) and (iii): sustained concurrent load and close with pending background work.
 pub fn worker_c09_conc(ctx: &WorkerCtx, res: &RefCell<WorkerResult>) {
     let cases = match ctx.tier {
-        Tier::Quick => 400u64,
-        Tier::Thorough => 12_000,
+        Tier::Quick => 1600u64,
+        Tier::Thorough => 30_000,
     };
-    let cases = std::env::var("VERIF_CASES").ok().and_then(|s| s.parse::<u64>().ok()).map(|c| (c * cases / 1500).max(1)).unwrap_or(cases);
+    let cases = std::env::var("VERIF_CASES").ok().and_then(|s| s.parse::<u64>().ok()).map(|c| (c * cases / 8000).max(1)).unwrap_or(cases);
     campaign(ctx, "C09", c09_strategy(), cases, 91, true, res);
 }
 
